@@ -66,10 +66,11 @@ def main():
                 os._exit(97)
 
     half = len(data) // 2
-    point("cc.write1")
+    final = "!" if os.path.basename(out) in os.environ.get("VERIF_FINAL_NAMES", "").split(",") else ""
+    point("cc.write1" + final)
     fd = os.open(out, os.O_WRONLY | os.O_CREAT | os.O_TRUNC, 0o755)
     os.write(fd, data[:half])
-    point("cc.write2")
+    point("cc.write2" + final)
     os.write(fd, data[half:])
     os.close(fd)
     return 0
